@@ -135,6 +135,13 @@ pub async fn run_case(c: Case) -> Result<CaseInfo, Failure> {
         if c.role.is_server() && matches!(op, Op::Send { kind: SendKind::Subscribe | SendKind::Unsubscribe, .. } | Op::SendBad { kind: SendKind::Subscribe | SendKind::Unsubscribe, .. }) {
             continue;
         }
+        // traffic of the peer's own: a QoS 2 PUBLISH that carries the packet id of the newest outbound publish (16), later its
+        // PUBREL (7); one such exchange at a time; servers only (clients answer QoS 2 with PUBACK, known finding of C03)
+        if let Op::Inbound(k) = op {
+            if !c.role.is_server() || (*k == 7 && w.inbound_qos2 == 0) || (*k == 16 && w.inbound_qos2 != 0) || !matches!(*k, 7 | 16) {
+                continue;
+            }
+        }
         // streamed sends appear only as locally failing starts (over-long topic, packet id in use)
         if let Op::StreamStart { qos, bad, .. } = op {
             // (with a full window the start would park and run later, when the id may be free again)
@@ -161,6 +168,9 @@ pub async fn run_case(c: Case) -> Result<CaseInfo, Failure> {
             _ => 0,
         });
         w.apply(*op).await.map_err(|f| fail(&c, &f.rule, f.detail))?;
+        if let Op::Inbound(7) = op {
+            w.inbound_qos2 = 0;
+        }
         // requests that were on the wire and unanswered when the peer wrote this acknowledgement
         if w.acks.len() > acks_before && w.acks.len() - acks_before + w.unanswered.len() >= 2 {
             two_outstanding_at_ack = true;
@@ -307,6 +317,7 @@ fn op_strategy() -> BoxedStrategy<Op> {
         2 => any::<u8>().prop_map(Op::Release),
         1 => any::<u8>().prop_map(Op::DropReceipt),
         1 => Just(Op::Settle),
+        1 => prop_oneof![Just(Op::Inbound(16)), Just(Op::Inbound(7))],
     ]
     .boxed()
 }
@@ -395,6 +406,24 @@ fn deviation_matrix() -> Vec<Case> {
                     ops.extend(tail);
                     ops.extend([q1, Op::Send { kind: SendKind::Qos2, again: false, own_id: 0 }, Op::Ack { n: 3, batch: false }]);
                     out.push(Case { role, limit: 5, ops, peer_max: false });
+                }
+            }
+        }
+        // the same packet id in flight in both directions: the peer's own QoS 2 exchange with id N is untouched by the
+        // acknowledgements of the endpoint's publish N
+        if role.is_server() {
+            for kind in [SendKind::Qos2, SendKind::Qos1] {
+                for early in [false, true] {
+                    let mut ops = vec![Op::Send { kind, again: false, own_id: 0 }, Op::Settle];
+                    if early {
+                        ops.push(Op::Inbound(16));
+                    }
+                    ops.push(Op::Ack { n: 1, batch: false });
+                    if !early {
+                        ops.push(Op::Inbound(16));
+                    }
+                    ops.extend([Op::Release(0), Op::Ack { n: 1, batch: false }, Op::Inbound(7), Op::Send { kind: SendKind::Qos1, again: false, own_id: 0 }, Op::Ack { n: 1, batch: false }]);
+                    out.push(Case { role, limit: 3, ops, peer_max: false });
                 }
             }
         }
@@ -492,7 +521,7 @@ pub fn run(ctx: &Ctx, started: Instant) -> i32 {
         level: "exploration",
         rule: format!(
             "deviation matrix ({} cases): every send kind x every acknowledgement type at positions 0..2 (also for the second QoS 2 leg), wrong id / duplicate / reordered / unsolicited acknowledgements; one run of 65545 automatic packet ids with window 3 \
-             across the 65535->1 wrap per role; proptest histories of 2..15 ops: sends of QoS1/QoS2/subscribe/unsubscribe with automatic or caller-chosen ids 1..3 (collisions) and 65534 / 65535, locally failing sends (70000-byte topic or filter, 66000-byte user property, v5: packet above the peer's Maximum Packet Size of 64), acks singly/batched with generated v5 contents \
+             across the 65535->1 wrap per role; proptest histories of 2..15 ops: sends of QoS1/QoS2/subscribe/unsubscribe with automatic or caller-chosen ids 1..3 (collisions) and 65534 / 65535, locally failing sends (70000-byte topic or filter, 66000-byte user property, v5: packet above the peer's Maximum Packet Size of 64), acks singly/batched with generated v5 contents (PUBACK / PUBREC reason codes, PUBCOMP with 0x92, reason strings, user properties), servers: a QoS 2 exchange of the peer's own that carries the same packet id as an outbound publish, \
              (reason codes, reason strings, user properties, SUBACK lists), at most one deviation, releases and receipt drops. Oracle: a future resolves Ok only after a non-deviating acknowledgement of the right type and id was sent, and returns its contents; \
              outstanding ids non-zero and distinct; a deviation yields exactly one Stop(Protocol) and resolves every pending future; a correct peer completes everything on the wire, keeps the connection and restores credit(), also after local failures. \
              Non-trivial = >=2 requests outstanding at an ack, a deviation, a local failure followed by acknowledged traffic, or the wrap run; distinct = (role, op trace)",
